@@ -23,6 +23,55 @@ CHECKS = {
    text="VSwitch.tla gives GetOne/Block/expiry as actions whose guards are the property clauses (member of candidates, zone unless fallback, free>0 on the cached snapshot, ordered=first eligible, most=max free, blocked until expiry, caller slice unchanged). Sequential executions of the real selector are fully logged and must be behaviours of the spec; concurrent executions must be linearizable to it.",
    design_ref="DESIGN.md 4.5, 5 (C17)",
    note="Trusts: fake VPC and fake clock; concurrent rounds use a static cloud and no expiry; data-race freedom itself is not decided."),
+
+ "C01": dict(
+   technique="TLA+ spec NodePool.tla (observable steps of the node pool, guards = property clauses) model-checked by TLC; TLC-simulated + random scenarios driven through the real eni.Manager/Local on a fake cloud; recorded traces validated by TLC with Enforce={C01}",
+   category="model_checking",
+   text="Every recorded execution of the real pool (concurrent ADD / repeated ADD / cancel / DEL / replayed DEL / balancer / sync / remote removal / cloud faults) must be a behaviour of NodePool.tla with the C01 guards on: exclusive hand-out judged on what callers were told, hand-out only of addresses live during the request, repeated ADD returns the same address.",
+   design_ref="DESIGN.md 4.1, 5 (C01)",
+   note="Trusts the fake factory.Factory; schedules are whatever the Go scheduler produced under the driver's stimuli (bursts, jitter), not enumerated; 300 ms factory rounds are real time."),
+ "C06": dict(
+   technique="same traces as C01 validated against NodePool.tla with Enforce={C06}: every cloud call's arguments are judged at its begin event",
+   category="model_checking",
+   text="Quota clauses (addresses per interface, interfaces per node) and disposal clauses (never unassign a held or primary address, never delete trunk/RDMA or an interface in use) are guards of the cloud-call actions; HeldBacked/Quota invariants are evaluated in every state of every validated trace.",
+   design_ref="DESIGN.md 4.1, 5 (C06)",
+   note="'pending requests' on an interface being deleted are not observable at this grain; covered indirectly by the hand-out validity clause of C01."),
+ "C07": dict(
+   technique="same traces as C01; every scenario ends with a drain and a quiescent observation (pool Status() next to the cloud state) judged by NodePool.tla's Quiescent action with Enforce={C07}",
+   category="model_checking",
+   text="At quiescence: tracked interfaces = cloud interfaces, no orphan address in the cloud, nothing tracked as valid that the cloud lacks, no ghost owner, idle reserve inside the min/max band after a healthy drain.",
+   design_ref="DESIGN.md 4.1, 5 (C07)",
+   note="Lenient readings: idle primaries cannot be disposed and do not count against max-idle; error-after-effect results carry the created object."),
+ "C12": dict(
+   technique="TLA+ function spec NetConf.tla: TLC enumerates allocation results / CNI configurations, the real AllocIP -> protobuf -> parseSetupConf/getDatePath chain runs on each, TLC judges",
+   category="model_checking",
+   text="Exhaustive within a finite domain of allocation shapes (local, CRD, PodENI multi-interface, v4/v6/dual, trunk, default-route flag vectors, subnets, bandwidth overrides); relation written from the property text over byte tuples.",
+   design_ref="DESIGN.md 2.6, 5 (C12)",
+   note="The node-local pool's resource is harness-built; finite domain."),
+ "C15": dict(
+   technique="TLA+ function spec Inputs.tla: bounded token language per user-writable field enumerated by TLC, real parsers run under recover, TLC judges",
+   category="model_checking",
+   text="All strings of <=3-4 tokens over a hostile token alphabet for every user-writable field; no panic; well-formed bandwidth accepted with the right value and monotone in the unit.",
+   design_ref="DESIGN.md 2.6, 5 (C15)",
+   note="Bounded token language instead of all byte strings (the technique fits this property least)."),
+ "C18": dict(
+   technique="TLA+ function spec Webhook.tla: TLC enumerates pods x PodNetworkings x cluster configs, real mutating webhook runs with the fake client, JSON patch applied, TLC judges",
+   category="model_checking",
+   text="Exhaustive within four input families (scope, inline network lists, network requests, selector matching); relation from the property text on the patched pod.",
+   design_ref="DESIGN.md 2.6, 5 (C18)",
+   note="One known finding (D7) is reported as KNOWN-FINDING; PodNetworking validation webhook is outside the property."),
+ "C19": dict(
+   technique="TLA+ function spec Capacity.tla: TLC enumerates instance-type limit vectors x configurations, real daemon limit/pool computation and node controllers run, TLC judges upper bounds",
+   category="model_checking",
+   text="Exhaustive within a finite domain of limit vectors and configurations; oracle = upper bounds from the property text.",
+   design_ref="DESIGN.md 2.6, 5 (C19)",
+   note="daemon/builder.go setupENIManager and device-plugin counts are not executed; default cap ratio only."),
+ "C20": dict(
+   technique="TLA+ function spec ConfigChain.tla: RFC 7396 MergePatch as a recursive TLA+ operator + CNI chain relation; real MergeConfigAndUnmarshal / mergeConfigList run in a private mount+net namespace; TLC judges",
+   category="model_checking",
+   text="Merge laws and merge-patch semantics on real eni_conf keys; generated CNI chain coherence over plugin lists x kernel features x recorded capabilities.",
+   design_ref="DESIGN.md 2.6, 5 (C20)",
+   note="Needs root for unshare -m -n; malformed JSON and float members outside the domain."),
 }
 
 NA_REASON = "not built yet in this round of work; see DESIGN.md section 10 (build order) - the property is planned to be decided by the TLA+ pipeline"
